@@ -114,6 +114,7 @@ func RunCLI(files map[string][]byte, now time.Time, getter verify.HTTPSGetter, a
 }
 
 type c01env struct {
+	sharedPools  map[string]*x509.CertPool // when set: one pool object per roots class, shared by all calls
 	m            *Material
 	snpMeas      []byte
 	att          *spb.Attestation // without the extra entry
@@ -137,11 +138,17 @@ func (e *c01env) certDER(class string) []byte {
 		return e.m.EvilSelf.Raw
 	case "evil_chain":
 		return e.m.EvilLeaf.Raw
+	case "genuine_critext":
+		return e.m.SignCertCrit.Raw
+	case "self_signed_evil_critext":
+		return e.m.EvilSelfCrit.Raw
+	case "evil_chain_critext":
+		return e.m.EvilLeafCrit.Raw
 	}
 	return nil
 }
 func (e *c01env) certKey(class string) *rsa.PrivateKey {
-	if class == "self_signed_evil" || class == "evil_chain" {
+	if strings.HasPrefix(class, "self_signed_evil") || strings.HasPrefix(class, "evil_chain") {
 		return e.m.E
 	}
 	return e.m.S
@@ -163,7 +170,8 @@ func (e *c01env) build() {
 	for i := range garbageSig {
 		garbageSig[i] = byte(i*7 + 3)
 	}
-	for _, cert := range []string{"genuine", "genuine_pkcs1issued", "genuine_sha384issued", "absent", "garbage", "self_signed_evil", "evil_chain"} {
+	for _, cert := range []string{"genuine", "genuine_pkcs1issued", "genuine_sha384issued", "absent", "garbage", "self_signed_evil", "evil_chain",
+		"genuine_critext", "self_signed_evil_critext", "evil_chain_critext"} {
 		for _, prov := range []string{"old_none", "new_none", "new_clspec", "new_commit"} {
 			gs := GoldenSpec{Snp: map[uint32][]byte{2: e.snpMeas}, Tdx: []*epb.VMTdx_Measurement{{Mrtd: m.Mrtd}}, Digest: Meas("fw"), Cert: e.certDER(cert), Svn: 1}
 			switch prov {
@@ -219,6 +227,13 @@ func (e *c01env) build() {
 }
 
 func (e *c01env) roots(class string) *x509.CertPool {
+	if p := e.sharedPools[class]; p != nil {
+		return p // one pool object reused across calls (see the successive-use pass)
+	}
+	return e.roots0(class)
+}
+
+func (e *c01env) roots0(class string) *x509.CertPool {
 	switch class {
 	case "empty", "emptyfile":
 		return x509.NewCertPool()
@@ -404,7 +419,7 @@ func RunC01(run *vk.Run) {
 		stride = 4 // quick: a seeded quarter of the rows (every row in thorough)
 	}
 	parallel(len(em.Cases), func(i int) {
-		if (i+int(run.Seed))%stride != 0 {
+		if !vk.Pick(i, run.Seed, stride) {
 			return
 		}
 		var c emitted
@@ -413,11 +428,14 @@ func RunC01(run *vk.Run) {
 			return
 		}
 		r := Row{c.Row.Payload, c.Row.Sig, c.Row.Cert, c.Row.Roots, c.Row.Time, c.Row.Prov, c.Row.Entry}
+		// the statement's reading of "authentic" (a genuine-root-issued certificate with a critical
+		// extension unknown to the library chains and is in time; the library refuses it all the same)
 		specAuth := r.Sig == "valid" && r.Payload != "unparseable" && strings.HasPrefix(r.Cert, "genuine") && (r.Roots == "R" || r.Roots == "R_and_foreign") && (r.Time == "nb" || r.Time == "inside" || r.Time == "na")
 		// independent concrete oracle
 		sigOK := env.oracle[r.Cert+"|"+r.Payload+"|"+r.Prov+"|"+r.Sig] && r.Payload != "unparseable"
 		chainOK := false
 		if cc, err := x509.ParseCertificate(env.certDER(r.Cert)); err == nil && env.roots(r.Roots) != nil {
+			cc.UnhandledCriticalExtensions = nil // chain and time only: the unknown extension is not the statement's topic
 			_, verr := cc.Verify(x509.VerifyOptions{Roots: env.roots(r.Roots), CurrentTime: env.when(r.Time)})
 			chainOK = verr == nil
 		}
@@ -456,7 +474,35 @@ func RunC01(run *vk.Run) {
 			run.Sample(map[string]any{"row": r, "spec_result": c.Result, "real_accepted": acc, "real_error": et})
 		}
 	})
+	// successive use: the same roots object and the same endorsement, first at a valid time, then at
+	// times outside the certificate's validity (and with the other roots classes): what an earlier
+	// call established must not carry over to a call with another verification time or root set
+	env.sharedPools = map[string]*x509.CertPool{}
+	for _, cls := range []string{"R", "R_and_foreign", "foreign", "empty"} {
+		env.sharedPools[cls] = env.roots0(cls)
+	}
+	for _, entry := range []string{"Endorsement", "EndorsementProto", "SNPFunc_blob", "SNPFunc_opts", "SevValidate_opts", "SevValidate_extra", "TdxValidate_opts"} {
+		for _, cert := range []string{"genuine", "genuine_pkcs1issued"} {
+			for _, rootsCls := range []string{"R", "R_and_foreign"} {
+				warm := Row{Payload: "canonical", Sig: "valid", Cert: cert, Roots: rootsCls, Time: "inside", Prov: "new_clspec", Entry: entry}
+				if acc, et := env.run(warm); !acc {
+					run.AddDrift(1)
+					fmt.Printf("DRIFT property=C01 successive-use warm-up row %+v rejected: %s\n", warm, et)
+					continue
+				}
+				for _, tm := range []string{"before", "after"} {
+					r := warm
+					r.Time = tm
+					if acc, _ := env.run(r); acc {
+						run.Violation("not-authentic:successive:time", fmt.Sprintf("entry point %s accepts an endorsement at a time outside its certificate's validity (%s) after the same roots object verified it at a valid time", entry, tm), map[string]any{"row": r})
+					}
+					run.Case(fmt.Sprintf("successive:%s:%s:%s:%s", entry, cert, rootsCls, tm), true)
+				}
+			}
+		}
+	}
+	env.sharedPools = nil
 	run.AddDrift(drift)
 	run.Exhaustive = !run.IsQuick()
-	run.Rule = "every row of Verify.tla (payload x signature x certificate x caller roots x caller time x provenance x entry point = 126000) is realised with real RSA keys, certificates, signatures and attestations and executed on the named entry point (library functions, validator closures, SevValidate, TdxValidate and the three CLI commands in-process); quick runs a seeded quarter; non-trivial = rows whose signature or certificate is not genuine"
+	run.Rule = "every row of Verify.tla (payload x signature x certificate (incl. certificates with an unknown critical extension) x caller roots x caller time x provenance x entry point = " + fmt.Sprint(len(em.Cases)) + ") is realised with real RSA keys, certificates, signatures and attestations and executed on the named entry point (library functions, validator closures, SevValidate, TdxValidate and the three CLI commands in-process); quick runs a seeded quarter; non-trivial = rows whose signature or certificate is not genuine"
 }
